@@ -68,9 +68,10 @@ def regenerate(ctx: Ctx) -> None:
 class Spec:
     """one configuration of StandardSimilarity + the coordinate box"""
 
-    def __init__(self, kind: str, dc: float, ec: float, bounds: list[tuple[float, float]]):
+    def __init__(self, kind: str, dc: float, ec: float, bounds: list[tuple[float, float]], ebase: float = 0.0):
         self.kind, self.dc, self.ec, self.bounds = kind, float(dc), float(ec), [(float(a), float(b)) for a, b in bounds]
         self.dim = len(bounds)
+        self.ebase = float(ebase)       # where the zero of energy sits (the criterion is an absolute difference)
 
     def mode_line(self) -> str:
         if self.kind == "abs":
@@ -100,17 +101,18 @@ class Spec:
     def other_box(self, rng) -> "Spec":
         """same criteria, same dimension, a differently shaped box (dyadic factors)"""
         return Spec(self.kind, self.dc, self.ec,
-                    [(a * f, b * f) for (a, b), f in ((bb, rng.choice([0.25, 0.5, 2.0, 4.0, 16.0])) for bb in self.bounds)])
+                    [(a * f, b * f) for (a, b), f in ((bb, rng.choice([0.25, 0.5, 2.0, 4.0, 16.0])) for bb in self.bounds)],
+                    self.ebase)
 
     def allowed(self) -> list[float]:
         return [(b - a) * self.dc for a, b in self.bounds]
 
     def as_dict(self) -> dict:
-        return {"kind": self.kind, "dc": self.dc, "ec": self.ec, "bounds": self.bounds}
+        return {"kind": self.kind, "dc": self.dc, "ec": self.ec, "bounds": self.bounds, "ebase": self.ebase}
 
     @staticmethod
     def from_dict(d: dict) -> "Spec":
-        return Spec(d["kind"], d["dc"], d["ec"], [tuple(b) for b in d["bounds"]])
+        return Spec(d["kind"], d["dc"], d["ec"], [tuple(b) for b in d["bounds"]], d.get("ebase", 0.0))
 
     def exact_margin(self, p, q) -> float:
         """smallest relative distance of a comparison of test_same(p, q) from its threshold, in
@@ -323,6 +325,9 @@ def dyadic_specs() -> list[Spec]:
     out.append(Spec("prop", 1.0 / 8, 0.25, [(-4.0, 4.0)]))
     out.append(Spec("prop", 1.0 / 16, 0.5, [(-4.0, 4.0), (-1.0, 1.0)]))
     out.append(Spec("prop", 1.0 / 8, 0.25, [(-2.0, 2.0), (0.0, 8.0), (-8.0, 8.0)]))
+    # the same criteria with the zero of energy far away (total energies of order 1e5; dyadic, so still exact)
+    out.append(Spec("abs", 5.0 / 4, 0.5, [(-4.0, 4.0)] * 2, ebase=-131072.0))
+    out.append(Spec("prop", 1.0 / 8, 0.25, [(-4.0, 4.0), (-1.0, 1.0)], ebase=262144.0))
     return out
 
 
@@ -374,7 +379,7 @@ def energy_offsets(spec: Spec) -> list[tuple[str, float]]:
 
 def grid_point(spec: Spec, rng):
     c = np.array([rng.randrange(-32, 33) * GRID for _ in range(spec.dim)])
-    e = rng.randrange(-64, 65) * GRID / 2
+    e = spec.ebase + rng.randrange(-64, 65) * GRID / 2
     return (c, e)
 
 
